@@ -15,6 +15,9 @@ func init() {
 				{Dir: "netutil", Func: "VerifC05ExtractV4", Opts: o},
 				{Dir: "netutil", Func: "VerifC05ExtractV6", Opts: o},
 				{Dir: "netutil", Func: "VerifC05ExtractFree", Opts: o},
+				{Dir: "netutil", Func: "VerifC05PrefixV6Full", Opts: o},
+				{Dir: "netutil", Func: "VerifC05ExtractV6Full", Opts: o},
+				{Dir: "netutil", Func: "VerifC05UnicodeRoot", Opts: o},
 			}
 			return append(hs, modelHarnesses...)
 		},
@@ -24,17 +27,21 @@ func init() {
 					"in-addr.arpa label sequences": "0..6 labels, each 1..4 arbitrary ASCII bytes (not 'x'; not '.' when more than 2 labels), arbitrary ASCII joining byte before the root, root in every letter case, optional trailing dot",
 					"ip6.arpa label sequences":     "0..34 labels of one arbitrary ASCII byte, one label (any position) 2..3 bytes wide; bytes not '.' when more than 4 labels",
 					"free strings":                 "PrefixFromReversedAddr: every ASCII string of length 0..8; ExtractReversedAddr: X ++ root for every ASCII X of length 0..6 (joint inside X)",
-					"extraction":                   "0..2 leading labels of 1..2 bytes in front of the label sequences",
+					"ip6.arpa, full length":        "30..33 labels; one label (any position) 1..3 arbitrary ASCII bytes, its neighbours one arbitrary ASCII byte, the others fixed hex digits; arbitrary joining byte, root in every case, optional dot",
+				"non-ASCII root":               "0..2 one-digit labels + a root in which one byte is replaced by an arbitrary two-byte UTF-8 rune (thorough: or a three-byte rune U+1000..U+CFFF), through the real idna and unicode tables",
+				"extraction":                   "0..2 leading labels of 1..2 bytes in front of the label sequences",
 				}
 			}
 			return map[string]string{
 				"in-addr.arpa label sequences": "0..5 labels of one arbitrary ASCII byte, one label (any position) 1..3 bytes wide (bytes not 'x'; not '.' when more than 2 labels), arbitrary ASCII joining byte before the root, root in every letter case, optional trailing dot",
 				"ip6.arpa label sequences":     "0..8 labels of one arbitrary ASCII byte, one label (any position) 2..3 bytes wide; bytes not '.' when more than 4 labels",
 				"free strings":                 "PrefixFromReversedAddr: every ASCII string of length 0..6; ExtractReversedAddr: X ++ root for every ASCII X of length 0..4 (joint inside X)",
-				"extraction":                   "0..1 leading label of 1..2 bytes in front of the label sequences",
+				"ip6.arpa, full length":        "30..33 labels; one label (any position) 1..3 arbitrary ASCII bytes, its neighbours one arbitrary ASCII byte, the others fixed hex digits; arbitrary joining byte, root in every case, optional dot",
+			"non-ASCII root":               "0..2 one-digit labels + a root in which one byte is replaced by an arbitrary two-byte UTF-8 rune (thorough: or a three-byte rune U+1000..U+CFFF), through the real idna and unicode tables",
+			"extraction":                   "0..1 leading label of 1..2 bytes in front of the label sequences",
 			}
 		},
-		Outside:     []string{"non-ASCII bytes (Unicode lower-casing after ASCII-only validation)", "labels starting with 'xn--'", "several multi-byte labels at once in long ip6.arpa names", "names between the shape bounds and 253 bytes"},
+		Outside:     []string{"non-ASCII bytes elsewhere than one rune in the root", "labels starting with 'xn--'", "several multi-byte labels at once in long ip6.arpa names", "names between the shape bounds and 253 bytes"},
 		Assumptions: []string{"reference decoder c05RefPrefix/c05RefExtract written from the statement (DESIGN.md appendix A); extraction uses the real ValidateDomainName as the statement's 'valid domain name'"},
 		Stubs:       append([]string{"fmt.* (texts opaque)", "unique.Make (interning)"}, modelStubs...),
 		Technique:   "SSA->SMT bounded symbolic execution; implementation vs. independent reference decoder on symbolic label sequences",
